@@ -907,7 +907,9 @@ func (cp *capacityPlugin) OnSessionOpen(ssn *framework.Session) {
 			return cp.queueAllocatableWithReserved(attr, candidate, queue, cp.dynamicResourceAllocationEnable, cp.draConsumableCapacityEnable)
 		}
 
-		list := append(state.queueAttrs[queue.UID].ancestors, queue.UID)
+		// Fresh slice, see checkQueueAllocatableHierarchically.
+		ancestors := state.queueAttrs[queue.UID].ancestors
+		list := append(append(make([]api.QueueID, 0, len(ancestors)+1), ancestors...), queue.UID)
 		for i := len(list) - 1; i >= 0; i-- {
 			if !simulateQueueAllocatable(state, ssn.Queues[list[i]], candidate) {
 				if klog.V(5).Enabled() {
@@ -1678,7 +1680,10 @@ func (cp *capacityPlugin) queueAllocatableWithReserved(attr *queueAttr, candidat
 
 func (cp *capacityPlugin) checkQueueAllocatableHierarchically(ssn *framework.Session, queue *api.QueueInfo, candidate *api.TaskInfo) bool {
 	// If hierarchical queue is not enabled, list will only contain the queue itself.
-	list := append(cp.queueOpts[queue.UID].ancestors, queue.UID)
+	// The list is built on a fresh slice: appending to attr.ancestors would write into a backing
+	// array that the ancestor lists of other queues share.
+	ancestors := cp.queueOpts[queue.UID].ancestors
+	list := append(append(make([]api.QueueID, 0, len(ancestors)+1), ancestors...), queue.UID)
 	// Check whether the candidate task can be allocated to the queue and all its ancestors.
 	for i := len(list) - 1; i >= 0; i-- {
 		if !cp.queueAllocatable(ssn.Queues[list[i]], candidate, cp.dynamicResourceAllocationEnable, cp.draConsumableCapacityEnable) {
@@ -1724,7 +1729,9 @@ func (cp *capacityPlugin) jobEnqueueable(queue *api.QueueInfo, job *api.JobInfo)
 
 func (cp *capacityPlugin) checkJobEnqueueableHierarchically(ssn *framework.Session, queue *api.QueueInfo, job *api.JobInfo) bool {
 	// If hierarchical queue is not enabled, list will only contain the queue itself.
-	list := append(cp.queueOpts[queue.UID].ancestors, queue.UID)
+	// Fresh slice, see checkQueueAllocatableHierarchically.
+	ancestors := cp.queueOpts[queue.UID].ancestors
+	list := append(append(make([]api.QueueID, 0, len(ancestors)+1), ancestors...), queue.UID)
 	// Check whether the job can be enqueued to the queue and all its ancestors.
 	for i := len(list) - 1; i >= 0; i-- {
 		if inqueue, resourceNames := cp.jobEnqueueable(ssn.Queues[list[i]], job); !inqueue {
